@@ -98,6 +98,32 @@ def random_program(rnd):
     return P
 
 
+def clockfail_programs():
+    """a timer registration during which the clock cannot be read: it fails, nothing is registered, and what is registered
+    afterwards (twice and more: records come from a pool) is dispatched once each, to its own cookie"""
+    out = []
+    for before in (0, 1, 2):
+        for after in (1, 2, 3, 5):
+            for kind in ("timer", "imm", "sock", "mixed"):
+                P = Prog(3)
+                for _ in range(before):
+                    P.main.append("reg_timer %d 0 500" % P.slot([], 0))
+                bad = P.slot([], 0)
+                P.main.append("reg_timer_cf %d 0 %d" % (bad, 100))
+                for j in range(after):
+                    k = kind if kind != "mixed" else ("timer", "imm", "sock")[j % 3]
+                    s2 = P.slot([], 0)
+                    if k == "timer":
+                        P.main.append("reg_timer %d 0 %d" % (s2, 200 + j))
+                    elif k == "imm":
+                        P.main.append("reg_imm %d %d" % (s2, j % 3))
+                    else:
+                        P.main += ["reg_sock %d %d %s" % (s2, j % 3, "RW"[j % 2]), "env %d 3" % (j % 3)]
+                P.main += ["reg_timer %d 0 50" % bad, "tick 0 1000", "run", "run", "run", "run"]
+                out.append(P)
+    return out
+
+
 def stop_programs():
     """a callback that both asks for an interrupt and returns non-zero, under events_run and under events_spin, as immediate /
     socket / timer callback; the next call must start from a clean slate (something runnable at its entry is run)"""
